@@ -22,7 +22,7 @@ KINDS = ["veto", "owner", "group", "symlink", "malformed", "unreadable", "vanish
 FILLS = [0xA5, 0x00, 0xFF, 0x5B, 0x0A, 0x7E]
 
 
-BORROW = ("c07", "c10", "c12", "c13", "c06")
+BORROW = ("c07", "c10", "c12", "c13", "c06", "c04", "c04")
 
 
 def gen_world(rng, i, tier):
